@@ -238,7 +238,14 @@ MidIds == (OciMid \X {"none"} \X {"def"})
 BigIds == ((OciBig \ {"multi"}) \X {"none"} \X {"def"}) \cup MultiIds
           \cup ({"art"} \X {"chain3"} \X {"def"})
           \cup ({"nested", "blobent", "single2"} \X {"symroot", "dotslash"} \X {"def"})
-BigBfsIds == {"idx2"} \X {"none"} \X {"def"}
+BigBfsIds == {"idx2"} \X {"none"} \X {"def"}         \* (C09_mc_code_big.cfg: 0.87 M states, run by hand)
+\* the 7 entry archives explored exhaustively in the thorough tier; the others (same automaton up to blob
+\* attributes) and the 8 entry ones are explored by random orders (C09_sim_big.cfg)
+MidBfsIds == ({"single2", "nested", "blobent", "unkent", "emptyent", "sharedent", "idxsame"} \X {"none"} \X {"def"})
+             \cup ({"art"} \X {"chain2"} \X {"def"})
+             \cup ({"blobent"} \X {"none"} \X {"preblobs"}) \cup ({"nested"} \X {"none"} \X {"preall"})
+             \cup ({"single1"} \X {"symroot", "symsib"} \X {"def"}) \cup ({"single1m"} \X {"symroot"} \X {"def"})
+SimIds == MidIds \cup BigIds
 ThoroughIds == QuickIds \cup SmallIds \cup MidIds \cup BigIds
 \* scenario generation: every order for archives of <= 6 entries, random orders (-simulate) for the rest
 GenSmallIds == {x \in ThoroughIds : Cardinality(Mk(x[1], x[2], x[3]).entries) <= 6}
